@@ -121,6 +121,10 @@ def function_level(chk, rng, binp):
     chk.sample({"site": "event", "text_len": len(meta[0][1].encode()), "impl": impl[0]})
 
 
+# a process that keeps whatever extra argument it is given in its command line and stays alive (sleep itself would reject the argument)
+LONG_LIVED = ["sh", "-c", "sleep 600 & wait", "sh"]
+
+
 def e2e_part(chk, rng, binp):
     stack = e2e.Stack(binp, log_level="Info")
     try:
@@ -133,10 +137,24 @@ def e2e_part(chk, rng, binp):
         for i in range(6 if chk.tier == "quick" else 60):
             padlen = rng.pick([900, 1000, 3600, 3800, 3900, 4000, 4050]) + rng.below(64)
             arg = "x" * padlen + "".join(rng.pick(MB) for _ in range(rng.rand_range(20, 120)))
-            p = subprocess.Popen([callers.procs["curl"]["exe"], "600", arg], stdout=subprocess.DEVNULL, stderr=subprocess.DEVNULL)
+            p = subprocess.Popen(LONG_LIVED + [arg], stdout=subprocess.DEVNULL, stderr=subprocess.DEVNULL)
             stack.pids.append(p)
-            weird.append({"uid": 1000, "user": "alice", "groups": ["users", "docker"], "pid": p.pid, "exe": callers.procs["curl"]["exe"],
-                          "proc": "curl", "cmdline": f"{callers.procs['curl']['exe']} 600 {arg}", "elevated": False})
+            weird.append({"uid": 1000, "user": "alice", "groups": ["users", "docker"], "pid": p.pid, "exe": shutil.which("sh"),
+                          "proc": "sh", "cmdline": " ".join(LONG_LIVED + [arg]), "elevated": False})
+        # command lines that are multi-byte all the way: with prefixes of 0,1,2(,3) ASCII bytes every byte offset falls inside a
+        # scalar for at least one of them, so a fixed-offset cut anywhere (not only at the known caps) is exercised
+        for ch, width in (("日", 3), ("😀", 4)):
+            for pre in range(width):
+                arg = "y" * pre + ch * (2100 if chk.tier == "quick" else 9000)
+                p = subprocess.Popen(LONG_LIVED + [arg], stdout=subprocess.DEVNULL, stderr=subprocess.DEVNULL)
+                stack.pids.append(p)
+                weird.append({"uid": 1000, "user": "alice", "groups": ["users", "docker"], "pid": p.pid, "exe": shutil.which("sh"),
+                              "proc": "sh", "cmdline": " ".join(LONG_LIVED + [arg]), "elevated": False})
+        dense = weird[-7:]
+        time.sleep(0.2)
+        dead = [w["pid"] for w in weird if not os.path.exists("/proc/%d" % w["pid"])]
+        if dead:
+            chk.broken.append({"kind": "gate", "name": "caller processes", "why": "caller processes with long command lines exited: %r" % dead[:5]})
         callers.add_user(1003, "üser-" + "名" * 30, ["grüppe", "x" * 200])
         time.sleep(0.3)
         deny = {"id": "r", "mode": "enforce", "defaultAccess": "deny", "rules": {"privileges": [], "roles": [], "identities": [], "roleAssignments": []}}
@@ -165,6 +183,21 @@ def e2e_part(chk, rng, binp):
             case = {"env": env, "caller": caller, "dest": dest, "req": req, "plan": None, "label": "imds", "c13_kind": kind,
                     "no_failed_compare": kind.startswith("cmdline")}
             runner.run_case(case)
+        # every dense multi-byte caller once denied and once allowed
+        for caller in dense:
+            for denied in (True, False):
+                env = {"ws": None, "imds": deny if denied else None, "hostga": None, "key": None}
+                runner.run_case({"env": env, "caller": caller, "dest": e2e.IMDS,
+                                 "req": {"method": "GET", "target": "/metadata/instance?a=1", "headers": [(b"Host", b"h")], "body": None, "chunked": None},
+                                 "plan": None, "label": "imds", "c13_kind": "cmdline-dense", "no_failed_compare": True})
+        # clients that hang up mid-request while the actors are slow
+        for ep in ("ws", "imds", "hostga"):
+            stack.ctl(f"rules {ep} none")
+        after = pipe.abort_storm(stack, callers, n=30 if chk.tier == "quick" else 300)
+        chk.count("aborting_clients", 30 if chk.tier == "quick" else 300)
+        if after is None or after["status"] != 200:
+            chk.violation("after clients hung up mid-request the listener no longer relays requests", {"clients": "30 connections reset right after sending a request, actors slowed by 4 ms per message"},
+                          expected=200, observed=after and after["status"])
         # liveness after all that
         alive = stack.alive()
         probe = runner.run_case({"env": {"ws": None, "imds": None, "hostga": None, "key": None}, "caller": callers.caller(0, "curl", True),
@@ -184,6 +217,50 @@ def e2e_part(chk, rng, binp):
         if not alive or probe["resp"] is None or probe["resp"]["status"] != 200:
             chk.violation("listener no longer serving after the input stream", {"alive": alive, "probe": probe["resp"] and probe["resp"]["status"]})
         chk.sample(runner.describe(runner.observations[0]))
+    finally:
+        stack.close()
+
+
+def hostile_status_documents(chk, rng, binp):
+    """whatever the host returns: status documents whose every string field carries multi-byte text at every alignment (the key
+    keeper formats, logs and publishes the document), key documents likewise; the key keeper must go on polling"""
+    import json as _json
+    import keeper
+    stack = e2e.Stack(binp, log_level="Info")
+    try:
+        kp = keeper.Keeper(None, sd=stack.sd, attach=stack, interval_ms=15)
+
+        def texts():
+            out = []
+            for ch in ("é", "日", "😀"):
+                for pre in range(5):
+                    out.append("1234567"[:pre] + ch * rng.pick([1, 3, 12]) + "-tail")
+            return out
+        docs = []
+        for t in texts():
+            docs.append({"authorizationScheme": "Azure-HMAC-SHA256", "keyDeliveryMethod": "http", "version": "1.0", "secureChannelState": "Wireserver",
+                         "keyGuid": t, "requiredClaimsHeaderPairs": [t]})
+            docs.append({"authorizationScheme": t, "keyDeliveryMethod": t, "version": "2.0", "secureChannelEnabled": True, "keyGuid": None,
+                         "authorizationRules": {"wireserver": {"defaultAccess": t, "mode": t, "id": t,
+                                                               "rules": {"privileges": [{"name": t, "path": "/" + t}], "roles": [{"name": t, "privileges": [t]}],
+                                                                         "identities": [{"name": t, "userName": t, "exePath": "/" + t}],
+                                                                         "roleAssignments": [{"role": t, "identities": [t]}]}}}})
+            docs.append({"authorizationScheme": "Azure-HMAC-SHA256", "keyDeliveryMethod": "http", "version": t, "secureChannelState": t, "keyGuid": None})
+        if chk.tier == "quick":
+            docs = [docs[i] for i in range(0, len(docs), 2)]
+        for i, d in enumerate(docs):
+            key_doc = {"authorizationScheme": "Azure-HMAC-SHA256", "guid": d.get("keyGuid") or ("g" + str(i)), "issued": "x", "key": "ab" * 32}
+            plan = {"status": {"kind": "raw", "body": _json.dumps(d, ensure_ascii=False).encode()},
+                    "acquire": {"kind": "raw", "body": _json.dumps(key_doc, ensure_ascii=False).encode()}, "attest": {"kind": "ok"}}
+            stt = kp.step(plan, kick=True)
+            chk.case(nontrivial_key=("hostile-doc", i))
+            chk.count("hostile_status_documents")
+            pan = stack.panics()
+            if stt is None or pan:
+                chk.violation("the key keeper stopped polling / panicked on a status document from the host", {"document": _json.dumps(d, ensure_ascii=False)[:600]},
+                              expected="next poll", observed=(pan[0][:300] if pan else "no further status request"))
+                break
+        kp.close()
     finally:
         stack.close()
 
@@ -245,6 +322,7 @@ def run(chk):
     function_level(chk, rng, binp)
     e2e_part(chk, rng, binp)
     late_notify(chk, binp)
+    hostile_status_documents(chk, rng, binp)
     chk.coverage["rule"] = ("function level: texts sized around the 4096/1024 offsets with 2/3/4-byte scalars straddling them through the real "
                             "write_event (read back from the event files), get_module_status, and utf-16 bodies of even/odd length through "
                             "read_response_body; e2e: header values with bytes >= 0x80 (valid, truncated and invalid UTF-8), callers with long "
